@@ -50,10 +50,99 @@ namespace Pyndl.Effects
 def chunkBody (created : List String) (e : Exit) : Path → World → World × Exit :=
   fun d w => (created.map (fun name => d ++ [name]) ++ w, e)
 
-/-- `ndl.ndl(events=<generator>)` after the repair of F7: a spool directory `s`
-    (bracket) that receives `events.tab.gz`, inside it the recursive call with its
-    own chunk directory `d` (a second bracket, created under the same parent). -/
+/-- `ndl.ndl(events=<generator>)` after the repair of F7 (895aaf2, ndl.py:132-142):
+    a spool directory `s` (bracket) that receives `events.tab.gz`; while it
+    exists, the recursive call creates its own chunk directory `d` (a second
+    bracket, ndl.py:217).  Both are made by `TemporaryDirectory(prefix="pyndl",
+    dir=temporary_directory)` with the SAME `dir`: `s` and `d` are SIBLINGS
+    below one parent — the second bracket is nested in time, not in the path
+    (`d` does not lie below `s`).  Spooling is assumed to succeed here; see
+    `generatorCallS` for a generator that raises while it is consumed. -/
 def generatorCall (s d : Path) (created : List String) (e : Exit) (w : World) : World × Exit :=
   bracket s (fun s w => bracket d (chunkBody created e) ((s ++ ["events.tab.gz"]) :: w)) w
+
+end Pyndl.Effects
+
+namespace Pyndl.Effects
+
+/-- run `first`; only if it returns, run `second` on the world it left -/
+def seqBody {ω : Type} (first second : ω → ω × Exit) (w : ω) : ω × Exit :=
+  match first w with
+  | (w', .raised) => (w', .raised)
+  | (w', .returned) => second w'
+
+/-- generator input with the spooling step made explicit: `io.events_to_file`
+    creates the files `spooled` (normally `["events.tab.gz"]`, possibly half
+    written) in the spool directory and returns or raises (`spoolExit`: the
+    generator may raise, or yield an event that cannot be written); only if it
+    returns does the recursive call with its chunk directory `d` happen. -/
+def generatorCallS (s d : Path) (spooled : List String) (spoolExit : Exit)
+    (created : List String) (e : Exit) (w : World) : World × Exit :=
+  bracket s (fun s w =>
+    seqBody (fun w => (spooled.map (fun name => s ++ [name]) ++ w, spoolExit))
+      (bracket d (chunkBody created e)) w) w
+
+/-! ## worlds with file CONTENTS
+
+For "the input event file is byte-for-byte unchanged" the world must say what
+is in a file.  `FS` is an association list path ↦ node (first entry wins). -/
+
+inductive Node where
+  | dir
+  | file (bytes : List UInt8)
+deriving Repr, DecidableEq
+
+abbrev FS := List (Path × Node)
+
+def FS.get (fs : FS) (p : Path) : Option Node := (fs.find? (fun x => x.1 == p)).map (·.2)
+
+/-- create or overwrite -/
+def FS.put (fs : FS) (p : Path) (n : Node) : FS := (p, n) :: fs
+
+/-- `os.remove` -/
+def FS.del (fs : FS) (p : Path) : FS := fs.filter (fun x => x.1 != p)
+
+/-- `shutil.rmtree(d)` -/
+def rmtreeC (d : Path) (fs : FS) : FS := fs.filter (fun x => !below d x.1)
+
+/-- `with tempfile.TemporaryDirectory(...) as d: body` on worlds with contents -/
+def bracketC (d : Path) (body : Path → FS → FS × Exit) (fs : FS) : FS × Exit :=
+  let (fs', e) := body d (fs.put d .dir)
+  (rmtreeC d fs', e)
+
+/-- the body leaves every path that is not at or below `d` as it was: same
+    existence, same kind, same bytes.  THIS IS AN ASSUMPTION ABOUT THE REAL
+    BODIES (`create_binary_event_files`, the learning kernels, `events_to_file`);
+    it is proved here only for the modelled bodies `opsBody`, and observed for
+    the real ones by the differential run (directory listing and sha256 of every
+    file outside the temporary directory before and after each call). -/
+def OnlyBelowC (d : Path) (body : Path → FS → FS × Exit) : Prop :=
+  ∀ fs p, below d p = false → (body d fs).1.get p = fs.get p
+
+/-- what a modelled body does in its directory: write (create or overwrite) a
+    file `d/name` with some bytes, or remove `d/name`.  Reading any file — the
+    input event file is opened read-only (`gzip.open(path, 'rt')`,
+    `open(path, 'rb')`) — is no operation on the world. -/
+inductive Op where
+  | write (name : String) (bytes : List UInt8)
+  | remove (name : String)
+deriving Repr, DecidableEq
+
+def runOp (d : Path) (fs : FS) : Op → FS
+  | .write name bytes => fs.put (d ++ [name]) (.file bytes)
+  | .remove name => fs.del (d ++ [name])
+
+def runOps (d : Path) (ops : List Op) (fs : FS) : FS := ops.foldl (runOp d) fs
+
+/-- a modelled body: any sequence of writes and removals in its directory, then
+    return or raise (an exception at any point = a shorter sequence and `raised`) -/
+def opsBody (ops : List Op) (e : Exit) : Path → FS → FS × Exit :=
+  fun d fs => (runOps d ops fs, e)
+
+/-- generator input on worlds with contents: spool operations in `s` with their
+    exit, then — if spooling returned — the learner's operations in the sibling `d` -/
+def generatorCallC (s d : Path) (spoolOps : List Op) (spoolExit : Exit) (ops : List Op) (e : Exit)
+    (fs : FS) : FS × Exit :=
+  bracketC s (fun s fs => seqBody (opsBody spoolOps spoolExit s) (bracketC d (opsBody ops e)) fs) fs
 
 end Pyndl.Effects
